@@ -2,6 +2,7 @@ from ..trainer import Hook, TrainState
 
 from attrs import define, field
 import os.path
+import shutil
 
 from xformer import loading
 import torch
@@ -53,13 +54,29 @@ class SavingHook(Hook):
 
         save_dir = os.path.join(self.run_dir, f"step_{state.elapsed.step:06d}")
         print(f"Saving snapshot to {save_dir}...")
-        save_snapshot(state, save_dir)
+        # A snapshot becomes visible under its final name only once it is
+        # complete, and the snapshot 'latest' designates is never rewritten
+        # in place (a repeated save of that step only re-points the link).
         latest_link = os.path.join(self.run_dir, "latest")
         try:
-            os.unlink(latest_link)
+            published = os.readlink(latest_link) == os.path.basename(save_dir)
+        except OSError:
+            published = False
+        if not (published and os.path.isdir(save_dir)):
+            tmp_dir = save_dir + ".tmp"
+            shutil.rmtree(tmp_dir, ignore_errors=True)
+            save_snapshot(state, tmp_dir)
+            # a directory of that name which 'latest' does not designate is
+            # the leftover of an interrupted run
+            shutil.rmtree(save_dir, ignore_errors=True)
+            os.rename(tmp_dir, save_dir)
+        tmp_link = latest_link + ".tmp"
+        try:
+            os.unlink(tmp_link)
         except FileNotFoundError:
             pass
         os.symlink(
             os.path.basename(save_dir),
-            latest_link,
+            tmp_link,
         )
+        os.replace(tmp_link, latest_link)
